@@ -42,6 +42,13 @@ RUN_CWD = {"op": "cell", "act": "run", "text": "import sys\nsys.modules.pop('zzc
 CATTR_BAD = {"op": "cell", "act": "cattr", "text": "zzmod_bad.ba", "names": [["bad", "zzmod_bad"]], "del": False}
 
 
+# a name living in several namespaces at once: the user rebinds a builtin; inspection must find the user's
+RUN_SHADOW = {"op": "cell", "act": "run", "text": "oct = 5\nzz_sh = oct + 1\nzz_sh", "names": [], "del": False}
+INSPECT_SHADOW = {"op": "cell", "act": "inspect", "text": "oct", "names": [], "del": False}
+INSPECT_BUILTIN = {"op": "cell", "act": "inspect", "text": "hex", "names": [], "del": False}
+PINFO_SHADOW = {"op": "cell", "act": "run", "text": "oct?", "names": [], "del": False}
+
+
 def stmt(text, names=(), dele=False):
     return {"op": "cell", "act": "run", "text": text, "names": [list(n) for n in names], "del": dele}
 
@@ -66,7 +73,7 @@ STMT_CELLS = [
     stmt("lambda zz_p, zz_b=1: zz_p + zz_b\nzz_u = (lambda q: q * 2)(4)\nzz_u -= 1\nzz_u"),
 ]
 
-HEALTHY = [RUN_CWD, CATTR_BAD] + STMT_CELLS + [RUN_IMPORT, RUN_PLAIN, RUN_BAD, RUN_UNKNOWN, RUN_TWO, INSPECT, INSPECT_UNKNOWN, CGLOBAL, CGLOBAL_USER, CATTR, RUNFILE, PRUN, DEBUGSTMT]
+HEALTHY = [RUN_CWD, CATTR_BAD, RUN_SHADOW, INSPECT_SHADOW, INSPECT_BUILTIN, PINFO_SHADOW] + STMT_CELLS + [RUN_IMPORT, RUN_PLAIN, RUN_BAD, RUN_UNKNOWN, RUN_TWO, INSPECT, INSPECT_UNKNOWN, CGLOBAL, CGLOBAL_USER, CATTR, RUNFILE, PRUN, DEBUGSTMT]
 TARGETS = [RUN_IMPORT, RUN_TWO, RUN_PLAIN, INSPECT, CGLOBAL, CATTR, RUNFILE, PRUN, DEBUGSTMT]
 RUNFILE_TEXT = "zz_r = b64decode('aGk=')\ndel b64decode\n"
 
@@ -190,6 +197,18 @@ def gen_finder():
     return cases
 
 
+def gen_shadow():
+    """inspection (_ofind, `name?`) of names bound in more than one namespace - a builtin rebound by the user -
+    healthy, after a withdrawal, and with a stub firing in the inspection itself: found / namespace / object must
+    be the pyflyby-free shell's (the hook hands its namespace list to IPython's original _ofind)"""
+    return [
+        mk("shadow", [{"op": "LoadExt"}, INSPECT_SHADOW, RUN_SHADOW, INSPECT_SHADOW, PINFO_SHADOW, INSPECT_BUILTIN, INSPECT, RUN_IMPORT]),
+        mk("shadow", [{"op": "LoadExt"}, RUN_SHADOW, with_faults(INSPECT_SHADOW, [["SAnalysis", "KeyError"]]), INSPECT_SHADOW, PINFO_SHADOW]),
+        mk("shadow", [{"op": "Enable"}, RUN_SHADOW, with_faults(INSPECT_SHADOW, [["SScopeStack", "SyntaxError"]]), INSPECT_SHADOW,
+                      {"op": "Disable"}, INSPECT_SHADOW], "DEBUG"),
+    ]
+
+
 def gen_matrix(levels=("INFO",)):
     """every hook x fault site x {an Exception subclass (rotating), SyntaxError, a BaseException (rotating)}"""
     cases = []
@@ -283,6 +302,12 @@ def oracle(case, impl, ref):
                         % (k, o["act"], o.get("faults"), c["escaped"], c.get("escaped_msg"))))
             continue
         # (2) the interaction gives what plain IPython gives (names successfully auto-imported apart)
+        if rc is not None and o["act"] == "inspect" and (c.get("result"), c.get("inspect")) != (rc.get("result"), rc.get("inspect")):
+            bad.append(("result_is_original", "step %d (inspect %r, faults %r): _ofind gives %r, in a pyflyby-free shell %r"
+                        % (k, o["text"], o.get("faults"), [c.get("result"), c.get("inspect")], [rc.get("result"), rc.get("inspect")])))
+        if rc is not None and o["act"] == "run" and o["text"].endswith("?") and c.get("stdout") != rc.get("stdout"):
+            bad.append(("result_is_original", "step %d (%r): the inspection prints %r, in a pyflyby-free shell %r"
+                        % (k, o["text"], c.get("stdout", "")[-300:], rc.get("stdout", "")[-300:])))
         if rc is not None and (hit or tr[k - 1]["snap"]["st"] == "DISABLED"):
             stub = sum(c.get("hits", {}).values()) > 0
             fields = ("result", "error", "ns_added", "ns_removed") + (("matches",) if stub else ("stdout", "matches"))
@@ -296,6 +321,12 @@ def oracle(case, impl, ref):
         if rc is not None and c.get("globals_delta") != rc.get("globals_delta"):
             bad.append(("result_is_original", "step %d (%s, faults %r): process-global state changed: %r, in a pyflyby-free "
                         "shell: %r" % (k, o["act"], o.get("faults"), c.get("globals_delta"), rc.get("globals_delta"))))
+        # (2c) a problem of the user's own file is not an internal error: %run of a script pyflyby cannot read or parse
+        #      (no stub involved) leaves the importer as it was
+        if c.get("natural_parse") and not sum(c.get("hits", {}).values()) and not c.get("natural_db") \
+           and s["errored"] and not tr[k - 1]["snap"]["errored"]:
+            bad.append(("user_file_problem_is_not_internal_error", "step %d (%%run of a script on which pyflyby's own read/parse "
+                        "raises %s): the importer withdrew (state %s, errored)" % (k, c["natural_parse"][0], s["st"])))
         # (3) after an internal error the importer has withdrawn; later interactions run no pyflyby code
         before = tr[k - 1]["snap"]
         if before["st"] == "DISABLED" and before["errored"] and c["pf_calls"] > 0:
@@ -385,7 +416,8 @@ ANCHORS = c14.ANCHORS + [
     "pyflyby._interactive:InterceptPrintsDuringPromptCtx", "pyflyby._log:_PyflybyHandler.HookCtx",
     "pyflyby._log:_PyflybyHandler.emit", "pyflyby._autoimp:auto_import", "pyflyby._autoimp:auto_import_symbol",
     "pyflyby._autoimp:_try_import", "pyflyby._autoimp:find_missing_imports", "pyflyby._autoimp:symbol_needs_import",
-    "pyflyby._modules:ModuleHandle.list", "pyflyby._util:ExcludeImplicitCwdFromPathCtx"]
+    "pyflyby._modules:ModuleHandle.list", "pyflyby._util:ExcludeImplicitCwdFromPathCtx",
+    "pyflyby._interactive:_ipython_namespaces", "pyflyby._importdb:ImportDB.get_default"]
 
 
 def run(ctx):
@@ -410,7 +442,7 @@ def run(ctx):
         "the import database and the modules (one importable, one raising at import) are written by the harness",
     ]
     ctx.notes["trusted_base"] = ["IPython 9.17.1 as the environment of the hooks (modelled, not verified)"]
-    always = gen_core() + gen_episodes() + gen_awkward() + gen_natural() + gen_stmt() + gen_finder()
+    always = gen_core() + gen_episodes() + gen_awkward() + gen_natural() + gen_stmt() + gen_finder() + gen_shadow()
     matrix = gen_matrix() if ctx.quick else gen_matrix(("INFO", "DEBUG")) + gen_stmt_full()
     if ctx.quick:
         r = cm.rng(ctx.seed, "c13-matrix")
